@@ -60,10 +60,37 @@ def _served_fields(data, rep):
     v, tfdt = mk.read_tfdt(traf.find('tfdt'))
     tfhd = mk.read_tfhd(traf.find('tfhd'))
     trun = mk.read_trun(traf.find('trun'))
+    # ISO/IEC 14496-12 8.8.7: sample duration from trun, else tfhd default, else the trex default
+    dflt = tfhd.get('default_sample_duration')
+    if dflt is None:
+        dflt = _trex_default_duration(rep)
     total = 0
     for s in trun['samples']:
-        total = total + s.get('duration', tfhd.get('default_sample_duration', 0))
+        total = total + s.get('duration', dflt)
     return seq, v, tfdt, total
+
+
+_TREX = {}
+
+
+def _trex_default_duration(rep):
+    """default_sample_duration of the track's trex box in the stored init segment"""
+    name = rep.id
+    if name not in _TREX:
+        import os
+        j = common.layouts()[name]
+        val = 0
+        if name in mk.MEDIA:
+            seg = j['segments'][0]
+            with open(os.path.join(common.FIX, mk.MEDIA[name][0]), 'rb') as f:
+                f.seek(seg['pos'])
+                init = f.read(seg['size'])
+            trex = mk.Root(init).find('moov.mvex.trex')
+            if trex is not None:
+                p = trex.start + trex.hdr + 4 + 4 + 4        # version/flags, track_ID, default_sample_description_index
+                val = mk._u(init, p, 4)
+        _TREX[name] = val
+    return _TREX[name]
 
 
 def _media_options(mt, timeline):
@@ -184,7 +211,7 @@ def h_number(sx, rep_name, ref_name, base, depth_max):
 
 def h_align(sx, rep_a, rep_b, ref_name, base):
     """two representations of one stream requested by $Number$ for the same presentation
-    instant: their source positions differ by at most one (largest) segment duration."""
+    instant: their source positions differ by at most two (largest) segment durations + 0.1 s."""
     from pysx.core import sx_and, sx_divmod
     now, elapsed_us = _clock(sx, rep_a, ref_name, base)
     mt, _ = tk.manifest_timing(now, ref_name, 60)
@@ -211,7 +238,10 @@ def h_align(sx, rep_a, rep_b, ref_name, base):
     (ra, tsa, la, ta, da), (rb, tsb, lb, tb, db) = pos[rep_a], pos[rep_b]
     # |ra/tsa - rb/tsb| <= max segment duration (seconds), unless the two sit either side of a loop wrap
     lhs = ra * tsb - rb * tsa
-    lim = max(da * tsb, db * tsa)
+    # the numbers were derived from nominal durations: each served segment starts within half a
+    # nominal segment (plus the per-loop drift correction, < 0.1 s) of its presentation time, so
+    # two of them are at most one largest segment + two halves + drift apart
+    lim = 2 * max(da * tsb, db * tsa) + (tsa * tsb) // 10
     same_loop = la == lb
     sx.prove(sx_and(sx_and(lhs <= lim, -lhs <= lim) if same_loop else
                     sx_and(la - lb <= 1, lb - la <= 1)),
